@@ -145,6 +145,11 @@ func genC08(t *rapid.T, tier string) interface{} {
 	if rapid.Bool().Draw(t, "oddwindow") && g.Window%2 == 0 {
 		g.Window++
 	}
+	// 1 case in 30: a window beyond one byte (the ring index is a little-endian key suffix: key order is not index order)
+	bigWindow := rapid.IntRange(0, 29).Draw(t, "bigwindow") == 0
+	if bigWindow {
+		g.Window = rapid.SampledFrom([]int64{256, 257, 300, 320, 511, 512}).Draw(t, "bigw")
+	}
 	g.MinSigned = rapid.SampledFrom([]string{"0", "0.05", "0.5", "0.5", "0.9", "1", "0.25", "0.75"}).Draw(t, "minsigned")
 	g.MaxValidators = 100000
 	g.JailSec = 60
@@ -153,6 +158,9 @@ func genC08(t *rapid.T, tier string) interface{} {
 	g.SlashDS = "0.05"
 	for len(g.Validators) < 2 {
 		g.Validators = append(g.Validators, hGenVal{Key: 7 - len(g.Validators), Stake: 5000001})
+	}
+	if bigWindow {
+		g.Validators = g.Validators[:2] // the state dumps grow with validators x window
 	}
 	for i := range g.Validators {
 		if g.Validators[i].Stake < 3*g.StakeMinimum {
@@ -164,6 +172,9 @@ func genC08(t *rapid.T, tier string) interface{} {
 	nb := rapid.IntRange(int(g.Window), int(4*g.Window)).Draw(t, "nblocks")
 	if tier == "quick" && nb > int(3*g.Window) {
 		nb = int(3 * g.Window)
+	}
+	if bigWindow {
+		nb = int(g.Window) + rapid.IntRange(5, 40).Draw(t, "bigextra")
 	}
 	type pat struct{ kind, k, phase int }
 	pats := make([]pat, 8)
